@@ -227,7 +227,7 @@ def impl_other(ts, cfg, kind, timeout=10.0):
             os.makedirs(d, exist_ok=True)
             path = os.path.join(d, "out_%d.shex" % os.getpid())
             with open(path, "w") as f:          # the path is being reused: what it held must disappear
-                f.write("# stale content of an earlier extraction\n:Stale {\n   :p  IRI\n}\n")
+                f.write("# stale content of an earlier extraction\n:Stale {\n   :p  IRI\n}\n}}} <<<stale ]] @@\n" * 3)
             sh.shex_graph(output_file=path, acceptance_threshold=(k / m))
             with open(path, newline="") as f:
                 text = f.read()
